@@ -59,7 +59,7 @@ def repo_sources():
 
 
 def native_lib_sources():
-    return [SHIM / "tinyxml2.cc", SHIM / "stubs.cc", NATIVE / "vfdrv.c"]
+    return [SHIM / "tinyxml2.cc", SHIM / "stubs.cc", NATIVE / "vfdrv.c", NATIVE / "vfmem.c"]
 
 
 def _sha(b):
@@ -196,20 +196,22 @@ def ensure(flavour="rel"):
             if r.returncode != 0:
                 raise BuildError("link failed:\n" + r.stdout.decode(errors="replace")[-3000:])
             os.replace(tmp, lib)
-            _gc(BUILD / "lib" / flavour, keep=2)
+            _gc(BUILD / "lib" / flavour)
             _gc_objs()
         else:
             os.utime(lib)
         return lib
 
 
-def exe(flavour, name, srcs, extra=(), link_lib=True, extra_repo_srcs=(), ldflags=()):
+def exe(flavour, name, srcs, extra=(), link_lib=True, extra_repo_srcs=(), ldflags=(), repo_extra=None):
     """Build a native harness executable from /verif/native/<srcs> (+ optional repo TUs compiled
     with `extra` flags, e.g. -include shim.h).  Linked against the flavour's library by rpath."""
     lib = ensure(flavour) if link_lib else None
     with _Lock("exe-" + flavour + "-" + name):
         srcs = [NATIVE / s if not os.path.isabs(str(s)) else Path(s) for s in srcs]
-        objs = objects(flavour, list(srcs) + [REPO / s for s in extra_repo_srcs], extra)
+        objs = objects(flavour, list(srcs), extra)
+        if extra_repo_srcs:
+            objs += objects(flavour, [REPO / s for s in extra_repo_srcs], extra if repo_extra is None else repo_extra)
         key = _sha(("\n".join(o.name for o in objs) + str(lib) + " ".join(ldflags)).encode())
         d = BUILD / "exe" / flavour / name / key
         out = d / name
@@ -226,7 +228,7 @@ def exe(flavour, name, srcs, extra=(), link_lib=True, extra_repo_srcs=(), ldflag
             if r.returncode != 0:
                 raise BuildError("link failed:\n" + r.stdout.decode(errors="replace")[-3000:])
             os.replace(tmp, out)
-            _gc(BUILD / "exe" / flavour / name, keep=2)
+            _gc(BUILD / "exe" / flavour / name, keep=4)
         return out
 
 
@@ -240,13 +242,20 @@ def asan_rt():
     return r.stdout.decode().strip()
 
 
-def _gc(d, keep=2):
+def _gc(d, keep=8, min_age_s=5400):
+    """Remove old build directories: keep the `keep` newest, and never remove one used in the last 90 min
+    (other checks / mutant runs may still be executing against it)."""
     try:
         subs = sorted([p for p in d.iterdir() if p.is_dir()], key=lambda p: p.stat().st_mtime, reverse=True)
     except FileNotFoundError:
         return
+    now = time.time()
     for p in subs[keep:]:
-        shutil.rmtree(p, ignore_errors=True)
+        try:
+            if now - p.stat().st_mtime > min_age_s:
+                shutil.rmtree(p, ignore_errors=True)
+        except OSError:
+            pass
 
 
 def _gc_objs(max_age_s=6 * 3600, max_bytes=6 << 30):
